@@ -422,10 +422,12 @@ Lemma sym_load_encoded : forall sp frames j,
   let pkts := sym_packets (S (length data)) (blockn sp) (length frames * blockn sp) data in
   match pkts with
   | [] => LOk (s_rate sp) []
-  | _ => match glue_all (s_fmt sp) (concat (map (pcm_decode (s_fmt sp) (Z.to_nat (s_channels sp))) pkts)) with
-         | Some frs => LOk (s_rate sp) frs
-         | None => LErrChannels
-         end
+  | _ => if (s_channels sp =? 1) || (s_channels sp =? 2) then
+           match glue_all (s_fmt sp) (concat (map (pcm_decode (s_fmt sp) (Z.to_nat (s_channels sp))) pkts)) with
+           | Some frs => LOk (s_rate sp) frs
+           | None => LErr
+           end
+         else LErrChannels
   end.
 Proof.
   intros sp frames j Hsp H26 Hr0 Hf Hs file. unfold file, encode.
@@ -463,6 +465,31 @@ Proof.
   reflexivity.
 Qed.
 
+(** characterisation of [spec_frames] *)
+Lemma spec_frames_mono : forall sp frames,
+  s_channels sp = 1 -> Forall (frame_ok sp) frames ->
+  spec_frames sp frames = Some (map (fun fr => let m := conv (s_fmt sp) (hd 0 fr) in (m, m)) frames).
+Proof.
+  intros sp frames Hc Hf. unfold spec_frames. induction Hf as [|fr frames [Hl _] _ IH]; [reflexivity|].
+  cbn [glue_all map]. rewrite IH. rewrite Hc in Hl.
+  destruct fr as [|m [|? ?]]; cbn in Hl; try lia. reflexivity.
+Qed.
+Lemma spec_frames_stereo : forall sp frames,
+  s_channels sp = 2 -> Forall (frame_ok sp) frames ->
+  spec_frames sp frames =
+  Some (map (fun fr => (conv (s_fmt sp) (nth 0 fr 0), conv (s_fmt sp) (nth 1 fr 0))) frames).
+Proof.
+  intros sp frames Hc Hf. unfold spec_frames. induction Hf as [|fr frames [Hl _] _ IH]; [reflexivity|].
+  cbn [glue_all map]. rewrite IH. rewrite Hc in Hl.
+  destruct fr as [|l [|r [|? ?]]]; cbn in Hl; try lia. reflexivity.
+Qed.
+Lemma spec_frames_multi : forall sp frames,
+  3 <= s_channels sp -> Forall (frame_ok sp) frames -> frames <> [] -> spec_frames sp frames = None.
+Proof.
+  intros sp frames Hc Hf Hne. unfold spec_frames. destruct Hf as [|fr frames [Hl _] _]; [congruence|].
+  cbn [glue_all]. destruct fr as [|a [|b [|c ?]]]; cbn in Hl; try lia. reflexivity.
+Qed.
+
 Lemma static_load_lemma : forall sp frames,
   spec_ok sp -> s_channels sp <= 26 -> 0 < s_rate sp ->
   Forall (frame_ok sp) frames -> size_ok sp frames ->
@@ -497,7 +524,17 @@ Proof.
   - rewrite <- E in *.
     destruct (sym_packets _ _ _ _) as [|p ps] eqn:Ep.
     + cbn in Hfull. rewrite E in Hfull. discriminate.
-    + rewrite Hfull. unfold spec_frames. reflexivity.
+    + rewrite Hfull. destruct Hsp as (Hc & _).
+      destruct (Z.eq_dec (s_channels sp) 1) as [H1|H1]; [|destruct (Z.eq_dec (s_channels sp) 2) as [H2'|H2']].
+      * rewrite H1. cbn [Z.eqb Pos.eqb orb].
+        change (glue_all (s_fmt sp) frames) with (spec_frames sp frames).
+        rewrite (spec_frames_mono sp frames H1 Hf). reflexivity.
+      * rewrite H2'. cbn [Z.eqb Pos.eqb orb].
+        change (glue_all (s_fmt sp) frames) with (spec_frames sp frames).
+        rewrite (spec_frames_stereo sp frames H2' Hf). reflexivity.
+      * replace (s_channels sp =? 1) with false by (symmetry; now apply Z.eqb_neq).
+        replace (s_channels sp =? 2) with false by (symmetry; now apply Z.eqb_neq).
+        cbn [orb]. rewrite spec_frames_multi; [reflexivity|lia|assumption|rewrite E; discriminate].
 Qed.
 
 Lemma truncation_lemma : forall sp frames j frs,
@@ -515,30 +552,9 @@ Proof.
   fold d in Hk.
   destruct (sym_packets _ _ _ _) as [|p ps] eqn:Ep.
   - exists 0%nat. reflexivity.
-  - rewrite Hk. unfold spec_frames in Hfrs. rewrite (glue_all_firstn _ k _ _ Hfrs). now exists k.
+  - rewrite Hk. unfold spec_frames in Hfrs. rewrite (glue_all_firstn _ k _ _ Hfrs).
+    destruct Hsp as (Hc & _).
+    replace ((s_channels sp =? 1) || (s_channels sp =? 2)) with true; [now exists k|].
+    symmetry. apply orb_true_iff. rewrite !Z.eqb_eq. lia.
 Qed.
 
-(** characterisation of [spec_frames] *)
-Lemma spec_frames_mono : forall sp frames,
-  s_channels sp = 1 -> Forall (frame_ok sp) frames ->
-  spec_frames sp frames = Some (map (fun fr => let m := conv (s_fmt sp) (hd 0 fr) in (m, m)) frames).
-Proof.
-  intros sp frames Hc Hf. unfold spec_frames. induction Hf as [|fr frames [Hl _] _ IH]; [reflexivity|].
-  cbn [glue_all map]. rewrite IH. rewrite Hc in Hl.
-  destruct fr as [|m [|? ?]]; cbn in Hl; try lia. reflexivity.
-Qed.
-Lemma spec_frames_stereo : forall sp frames,
-  s_channels sp = 2 -> Forall (frame_ok sp) frames ->
-  spec_frames sp frames =
-  Some (map (fun fr => (conv (s_fmt sp) (nth 0 fr 0), conv (s_fmt sp) (nth 1 fr 0))) frames).
-Proof.
-  intros sp frames Hc Hf. unfold spec_frames. induction Hf as [|fr frames [Hl _] _ IH]; [reflexivity|].
-  cbn [glue_all map]. rewrite IH. rewrite Hc in Hl.
-  destruct fr as [|l [|r [|? ?]]]; cbn in Hl; try lia. reflexivity.
-Qed.
-Lemma spec_frames_multi : forall sp frames,
-  3 <= s_channels sp -> Forall (frame_ok sp) frames -> frames <> [] -> spec_frames sp frames = None.
-Proof.
-  intros sp frames Hc Hf Hne. unfold spec_frames. destruct Hf as [|fr frames [Hl _] _]; [congruence|].
-  cbn [glue_all]. destruct fr as [|a [|b [|c ?]]]; cbn in Hl; try lia. reflexivity.
-Qed.
